@@ -659,6 +659,13 @@ func genAmqpConv(r *Rand, tier string, emit func(sx.Sx)) {
 		if r.Chance(15) { // connection handshake (server speaks first)
 			sf = append(sf, mf(0, findMethod(ms, 10, 10)), mf(0, findMethod(ms, 10, 30)))
 			cf = append(cf, mf(0, findMethod(ms, 10, 11)), mf(0, findMethod(ms, 10, 31)))
+		} else if r.Chance(10) { // tune / tune-ok announcing frame-max 0 ("no specific limit") or a tiny one
+			fm := []int{0, 0, 1, 4096}[r.Intn(4)]
+			tune := func(method int) sx.Sx {
+				return sx.L(sx.A("m"), sx.N(0), sx.N(10), sx.N(method), sx.L(sx.L(sx.A("s"), sx.N(2047)), sx.L(sx.A("l"), sx.N(fm)), sx.L(sx.A("s"), sx.N(60))))
+			}
+			sf = append(sf, tune(30))
+			cf = append(cf, tune(31))
 		}
 		used := map[[2]int]bool{}
 		n := 1 + r.Intn(5)
@@ -680,7 +687,7 @@ func genAmqpConv(r *Rand, tier string, emit func(sx.Sx)) {
 				sf = append(sf, mf(ch, m))
 				sf = append(sf, content(ch, r.Bytes(1+r.Intn(30)), 1)...)
 			case 0, 1: // publish with content
-				size := []int{0, 1, 10, 511, 512, 513, 2000}[r.Intn(7)]
+				size := []int{0, 1, 10, 511, 512, 513, 2000, 4088, 4089, 6000, 140000}[r.Intn(11)]
 				frames := 1
 				if size == 0 {
 					frames = 0
@@ -690,7 +697,7 @@ func genAmqpConv(r *Rand, tier string, emit func(sx.Sx)) {
 				cf = append(cf, mf(ch, findMethod(ms, 60, 40)))
 				cf = append(cf, content(ch, r.Bytes(size), frames)...)
 			case 2: // deliver with content
-				size := []int{0, 3, 600}[r.Intn(3)]
+				size := []int{0, 3, 600, 4089, 9000}[r.Intn(5)]
 				frames := 1
 				if size == 0 {
 					frames = 0
